@@ -754,11 +754,96 @@ theorem inv_dischargeSwap (s s' : St) (incoming : Asm) (outId : Nat)
 
 /-! ### histories -/
 
-/-- the preconditions of an operation: what the caller guarantees (distinct assemblies, a fresh assembly is not
-already in the reactor) and what `Core.add` checks (cell free) -/
+/-- no assembly in the core carries a stationary block (`stationaryBlockFlags: []`) -/
+def CoreNoStat (s : St) : Prop := ∀ p ∈ s.core, ∀ b ∈ p.1.blocks, b.stat = false
+
+private theorem transfer_nostat_eq (a1 a2 a1' a2' : Asm) (h : transfer a1 a2 = some (a1', a2'))
+    (hns : ∀ b ∈ a1.blocks, b.stat = false) : a1' = a1 ∧ a2' = a2 := by
+  unfold transfer at h
+  split at h
+  · exact absurd h (by simp)
+  · simp only [Option.some.injEq, Prod.mk.injEq] at h
+    obtain ⟨rfl, rfl⟩ := h
+    rw [xchg_nostat _ _ hns]; exact ⟨rfl, rfl⟩
+
+/-- **a swap of an assembly with itself (no stationary block involved) is the identity**: `moveTo` to the own cell
+rebinds `childrenByLocator[cell]` to the assembly that is already there. -/
+theorem swap_self (s s' : St) (i : Nat) (hI : Inv s) (h : swap s i i = some s')
+    (hns : ∀ p ∈ s.core, p.1.id = i → ∀ b ∈ p.1.blocks, b.stat = false) : s' = s := by
+  have hndc : (s.core.map (·.1.id)).Nodup := (List.nodup_append.1 hI.nodup).1
+  unfold swap at h
+  cases hf : s.core.find? (fun p => p.1.id = i) with
+  | none => simp [hf] at h
+  | some q =>
+    obtain ⟨a, c⟩ := q
+    obtain ⟨hm, hid⟩ := find_id hf
+    simp only [hf] at h
+    cases ht : transfer a a with
+    | none => simp [ht] at h
+    | some r =>
+      obtain ⟨a1', a2'⟩ := r
+      simp only [ht, Option.some.injEq] at h
+      obtain ⟨x1, x2⟩ := transfer_nostat_eq _ _ _ _ ht (hns (a, c) hm hid)
+      rw [x1, x2] at h
+      have hc : updCore s.core i a c = s.core := by
+        unfold updCore
+        conv_rhs => rw [← List.map_id s.core]
+        apply List.map_congr_left
+        intro p hp
+        split
+        · rename_i hpi; exact (ids_inj hndc hp hm (by rw [hpi, hid])).symm
+        · rfl
+      have hl : setLoc (setLoc s.byLoc c i) c i = s.byLoc := by
+        funext x
+        by_cases hx : x = c
+        · subst hx; simp only [setLoc, if_true]
+          have := hI.locFound (a, x) hm
+          rw [this, hid]
+        · simp [setLoc, hx]
+      rw [← h, hc, hc, hl]
+
+private theorem swap_coreNoStat (s s' : St) (i1 i2 : Nat) (hne : i1 ≠ i2) (h : swap s i1 i2 = some s') (hI : Inv s)
+    (hns : CoreNoStat s) : CoreNoStat s' := by
+  have hndc : (s.core.map (·.1.id)).Nodup := (List.nodup_append.1 hI.nodup).1
+  obtain ⟨a1, c1, a2, c2, a1', a2', m1, m2, k1, k2, ht, hcore, _⟩ := swap_shape s s' i1 i2 hne h hndc
+  obtain ⟨x1, x2⟩ := transfer_nostat_eq _ _ _ _ ht (hns _ m1)
+  subst x1; subst x2
+  intro q hq b hb
+  rw [hcore] at hq
+  obtain ⟨p, hp, rfl⟩ := List.mem_map.1 hq
+  by_cases hp1 : p.1.id = i1
+  · rw [if_pos hp1] at hb; exact hns _ m1 b hb
+  · by_cases hp2 : p.1.id = i2
+    · rw [if_neg hp1, if_pos hp2] at hb; exact hns _ m2 b hb
+    · rw [if_neg hp1, if_neg hp2] at hb; exact hns _ hp b hb
+
+/-- cascades that may name an assembly twice, on a core without stationary blocks: every property that swaps of two
+different assemblies preserve is preserved (a swap with itself is the identity) -/
+private theorem cascadeLoop_ns (P : St → Prop)
+    (hstep : ∀ s s' i j, i ≠ j → swap s i j = some s' → Inv s → P s → P s')
+    (a0 : Nat) (l : List Nat) (s : St) (hI : Inv s) (hns : CoreNoStat s) (hP : P s) :
+    P (cascadeLoop a0 s l).1 ∧ Inv (cascadeLoop a0 s l).1 := by
+  induction l generalizing s with
+  | nil => exact ⟨hP, hI⟩
+  | cons ak rest ih =>
+    unfold cascadeLoop
+    split
+    · exact ⟨hP, hI⟩
+    · rename_i s' hs
+      by_cases hak : a0 = ak
+      · subst hak
+        have := swap_self s s' a0 hI hs (fun p hp _ => hns p hp)
+        subst this
+        exact ih s' hI hns hP
+      · exact ih s' (inv_swap s s' a0 ak hak hs hI) (swap_coreNoStat s s' a0 ak hak hs hI hns)
+          (hstep s s' a0 ak hak hs hI hP)
+
+/-- the preconditions of an operation: what the caller guarantees (distinct assemblies - or, for a swap of an assembly
+with itself and cascades naming an assembly twice, no stationary block involved; a fresh assembly is not already in
+the reactor) and what `Core.add` checks (cell free) -/
 def Pre (s : St) : Op → Prop
-  | .swap i j => i ≠ j
-  | .cascade l => ∀ a0 rest, l = a0 :: rest → ∀ ak ∈ rest, a0 ≠ ak
+  | .swap i j => i ≠ j ∨ ∀ p ∈ s.core, p.1.id = i → ∀ b ∈ p.1.blocks, b.stat = false
+  | .cascade l => (∀ a0 rest, l = a0 :: rest → ∀ ak ∈ rest, a0 ≠ ak) ∨ CoreNoStat s
   | .dnew a _ => a.id ∉ inventory s
   | .dsfp _ _ => True
   | .remove _ _ => True
@@ -778,8 +863,19 @@ theorem inv_step (s : St) (op : Op) (hI : Inv s) (hp : Pre s op) : Inv (step s o
     simp only [step]
     cases h : swap s i j with
     | none => exact hI
-    | some s' => exact inv_swap s s' i j hp h hI
-  | cascade l => exact inv_cascade l s hp hI
+    | some s' =>
+      by_cases hij : i = j
+      · subst hij
+        rcases hp with hp | hp
+        · exact absurd rfl hp
+        · rw [swap_self s s' i hI h hp]; exact hI
+      · exact inv_swap s s' i j hij h hI
+  | cascade l =>
+    rcases hp with hp | hp
+    · exact inv_cascade l s hp hI
+    · cases l with
+      | nil => exact hI
+      | cons a0 rest => exact (cascadeLoop_ns (fun _ => True) (fun _ _ _ _ _ _ _ _ => trivial) a0 rest s hI hp trivial).2
   | dnew a o =>
     rw [step_dnew]
     cases h : dischargeSwap (preReg s a) a o with
@@ -889,14 +985,14 @@ def exOps : List Op :=
 
 example : RunOK exSt exOps := by
   simp only [RunOK, exOps, Pre]
-  refine ⟨by decide, ?_, ?_, trivial, trivial, ?_, trivial⟩
+  refine ⟨Or.inl (by decide), Or.inl ?_, ?_, trivial, trivial, ?_, trivial⟩
   · intro a0 rest h; cases h; decide
   · decide
   · exact ⟨by decide, by decide⟩
 
 example : Inv (run exSt exOps) := inv_run _ _ (inv_init _ _ _ (by decide) (by decide)) (by
   simp only [RunOK, exOps, Pre]
-  refine ⟨by decide, ?_, ?_, trivial, trivial, ?_, trivial⟩
+  refine ⟨Or.inl (by decide), Or.inl ?_, ?_, trivial, trivial, ?_, trivial⟩
   · intro a0 rest h; cases h; decide
   · decide
   · exact ⟨by decide, by decide⟩)
@@ -1575,12 +1671,22 @@ theorem blkFound_step (s : St) (op : Op) (hI : Inv s) (hp : Pre s op) (htk : s.t
     simp only [step]
     cases h : swap s i j with
     | none => exact hB
-    | some s' => exact blkFound_swap s s' i j hp h hndc hB
+    | some s' =>
+      by_cases hij : i = j
+      · subst hij
+        rcases hp with hp | hp
+        · exact absurd rfl hp
+        · rw [swap_self s s' i hI h hp]; exact hB
+      · exact blkFound_swap s s' i j hij h hndc hB
   | cascade l =>
     simp only [step]
     cases l with
     | nil => exact hB
-    | cons a0 rest => exact blkFound_cascadeLoop a0 rest s (hp a0 rest rfl) hI hB
+    | cons a0 rest =>
+      rcases hp with hp | hp
+      · exact blkFound_cascadeLoop a0 rest s (hp a0 rest rfl) hI hB
+      · exact (cascadeLoop_ns BlkFound (fun s s' i j hij h hI hB =>
+          blkFound_swap s s' i j hij h (List.nodup_append.1 hI.nodup).1 hB) a0 rest s hI hp hB).1
   | dnew a o =>
     rw [step_dnew]
     have hB0 : BlkFound (preReg s a) := by
@@ -1653,7 +1759,7 @@ example : BlkFound (run exSt [.swap 1 2, .cascade [1, 2, 3], .dsfp 9 1, .remove 
   blocks_found_run_partial _ _ (inv_init _ _ _ (by decide) (by decide))
     (by
       simp only [RunOK, Pre]
-      refine ⟨by decide, ?_, trivial, trivial, trivial⟩
+      refine ⟨Or.inl (by decide), Or.inl ?_, trivial, trivial, trivial⟩
       intro a0 rest h; cases h; decide)
     rfl
     (by intro op hop; simp only [List.mem_cons, List.not_mem_nil, or_false] at hop
@@ -2153,12 +2259,22 @@ theorem binv_step (s : St) (op : Op) (hI : Inv s) (hp : Pre s op) (hbp : BPreP s
     simp only [step]
     cases h : swap s i j with
     | none => exact hB
-    | some s' => exact binv_swap s s' i j hp h hI.nodup hB
+    | some s' =>
+      by_cases hij : i = j
+      · subst hij
+        rcases hp with hp | hp
+        · exact absurd rfl hp
+        · rw [swap_self s s' i hI h hp]; exact hB
+      · exact binv_swap s s' i j hij h hI.nodup hB
   | cascade l =>
     simp only [step]
     cases l with
     | nil => exact hB
-    | cons a0 rest => exact binv_cascadeLoop a0 rest s (hp a0 rest rfl) hI.nodup hB
+    | cons a0 rest =>
+      rcases hp with hp | hp
+      · exact binv_cascadeLoop a0 rest s (hp a0 rest rfl) hI.nodup hB
+      · exact (cascadeLoop_ns BInv (fun s s' i j hij h hI hB => binv_swap s s' i j hij h hI.nodup hB)
+          a0 rest s hI hp hB).1
   | dnew a o =>
     rw [step_dnew]
     obtain ⟨hsome, hnd, hdj⟩ := hbp
